@@ -82,3 +82,56 @@ class Spec:
         self.ctx = ctx
     def atom(self, node):
         return self.ctx.reduce(P.patom(self.ctx.key(node)))
+
+# ---------------------------------------------------------------- generic-point evaluation
+
+def _ready(c):
+    """condition whose operands contain no conditional"""
+    return not any(P.all_conds(a) for a in c.args)
+
+def generic_cases(terms, ctx, enumerate_cond=None, premise=None, max_enum=8, abs_pos=True):
+    """Evaluate the conditionals of `terms` at a *generic point* of the scenario described by
+    ctx (its substitutions ctx.lin pin inputs; everything else is an indeterminate):
+      a == b   is true  iff rat(a) - rat(b) is the zero rational function (identically equal),
+               false otherwise (a non-zero polynomial is non-zero at a generic point);
+      premise(c) may fix a truth value (e.g. squared length < 2*min -> False, C08's domain);
+      enumerate_cond(c) -> True marks order comparisons that are enumerated both ways.
+    Yields (assignment, resolved terms)."""
+    def step(cur, asg, depth):
+        conds = []
+        for t in cur:
+            for c in P.all_conds(t):
+                if c not in conds: conds.append(c)
+        if not conds:
+            yield asg, cur
+            return
+        ready = [c for c in conds if _ready(c)]
+        if not ready:
+            raise Undecided('conditions are mutually nested')
+        c = min(ready, key=lambda x: x.id)
+        v = premise(c) if premise else None
+        if v is None and c.op in ('fcmp', 'icmp') and c.attr in ('oeq', 'eq', 'one'):
+            try:
+                a, b = ctx.rat(c.args[0]), ctx.rat(c.args[1])
+                same = ctx.requal(a, b)
+                v = same if c.attr in ('oeq', 'eq') else (not same)
+            except P.NotPoly:
+                v = None
+        if v is None and c.op == 'fcmp' and c.attr in ('olt', 'ole'):
+            # comparisons between constants fold in the term layer; sign tests of sqrt / fabs atoms:
+            try:
+                a, b = ctx.rat(c.args[0]), ctx.rat(c.args[1])
+                if ctx.requal(a, b):
+                    v = (c.attr == 'ole')
+            except P.NotPoly:
+                pass
+        if v is not None:
+            a2 = dict(asg); a2[c] = v
+            yield from step([T.resolve(t, {c: v}) for t in cur], a2, depth)
+            return
+        if enumerate_cond is None or not enumerate_cond(c) or depth >= max_enum:
+            raise Undecided('condition %s cannot be decided at a generic point' % T.show(c, 3)[:200])
+        for v in (True, False):
+            a2 = dict(asg); a2[c] = v
+            yield from step([T.resolve(t, {c: v}) for t in cur], a2, depth + 1)
+    yield from step(list(terms), {}, 0)
